@@ -132,15 +132,17 @@ def resume_splits(rep, rng, tier):
     dev = meshes.make_device(rng, holes=0, terminals=2, max_edge_length=1.0)
     dt = 2.0 ** -7
     N = 12
-    for screening in [False, True]:
+    # (third pass: contacts left free, terminal_psi=None - the seeded state is then taken over without the contact value being
+    # imposed on it, i.e. through a different code path of solve())
+    for screening, tpsi in [(False, 0.0), (True, 0.0), (False, None)]:
         cur = {"source": 1.0, "drain": -1.0}
         common_kw = dict(dt_init=dt, dt_max=dt, adaptive=False, save_every=1, include_screening=screening,
-                         screening_tolerance=1e-3)
+                         screening_tolerance=1e-3, terminal_psi=tpsi)
         with tempfile.TemporaryDirectory(prefix="pyt_c11_") as td:
             full, _ = runs.traced_solve(dev, runs.make_options(td, solve_time=N * dt, output_file=td + "/full.h5", **common_kw),
                                         A=0.4, currents=cur)
             ref = read_frames(full.path)
-            for n in (range(1, N) if (tier == "thorough" or not screening) else (3, 8)):
+            for n in (range(1, N) if (tier == "thorough" or (not screening and tpsi is not None)) else (3, 8)):
                 p1, _ = runs.traced_solve(dev, runs.make_options(td, solve_time=n * dt, output_file=f"{td}/a{n}.h5", **common_kw),
                                           A=0.4, currents=cur)
                 seed_hash = hashlib.sha256(b"".join(np.ascontiguousarray(np.asarray(getattr(p1.tdgl_data, nm))).tobytes()
@@ -152,7 +154,7 @@ def resume_splits(rep, rng, tier):
                                                 for nm in FIELDS)).hexdigest()
                 if after != seed_hash:
                     rep.violation("resuming from a saved state modified the seed solution's in-memory data (aliasing)",
-                                  {"split_after": n, "screening": screening})
+                                  {"split_after": n, "screening": screening, "terminal_psi": tpsi})
                 if n in (3, 8):
                     # the same seed object used a second time, observed differently
                     kw2 = dict(common_kw)
@@ -163,7 +165,7 @@ def resume_splits(rep, rng, tier):
                     for s3, (h3, t3, d3) in read_frames(p3.path).items():
                         if (n + s3) not in ref or ref[n + s3][0] != h3:
                             rep.violation("a second resume from the same seed object does not reproduce the uninterrupted run",
-                                          {"split_after": n, "frame_step_in_resumed_run": s3, "screening": screening})
+                                          {"split_after": n, "frame_step_in_resumed_run": s3, "screening": screening, "terminal_psi": tpsi})
                             break
                     rep.count(1)
                 ok = True
@@ -171,14 +173,14 @@ def resume_splits(rep, rng, tier):
                     if (n + s) not in ref or ref[n + s][0] != h:
                         ok = False
                         rep.violation("a run resumed from a saved final state does not reproduce the uninterrupted run bit for bit",
-                                      {"split_after": n, "of": N, "frame_step_in_resumed_run": s, "screening": screening,
+                                      {"split_after": n, "of": N, "frame_step_in_resumed_run": s, "screening": screening, "terminal_psi": tpsi,
                                        "max_abs_dpsi": (float(np.max(np.abs(ref[n + s][2]["psi"] - d["psi"])))
                                                         if (n + s) in ref else None)})
                         break
                 if ok and max(fr) != N - n:
                     rep.violation("resumed run has the wrong number of steps", {"split_after": n, "last": max(fr)})
                 rep.count(1)
-                rep.nontrivial(("resume", n, screening))
+                rep.nontrivial(("resume", n, screening, tpsi))
     rep.sample({"resume": "all split points", "N": N, "dt": dt})
 
 
